@@ -10,8 +10,6 @@ package main
 //     the directive's request-time entry points.
 
 import (
-	"go/ast"
-	"go/constant"
 	"go/token"
 	"go/types"
 	"sort"
@@ -38,40 +36,7 @@ type DirMap struct {
 }
 
 func (p *Program) directiveList() ([]string, token.Pos) {
-	pk := p.ByPath[modPath+"/"+hs]
-	if pk == nil {
-		return nil, token.NoPos
-	}
-	for _, f := range pk.Syntax {
-		for _, d := range f.Decls {
-			gd, ok := d.(*ast.GenDecl)
-			if !ok || gd.Tok != token.VAR {
-				continue
-			}
-			for _, sp := range gd.Specs {
-				vs := sp.(*ast.ValueSpec)
-				for i, n := range vs.Names {
-					if n.Name != "directives" || i >= len(vs.Values) {
-						continue
-					}
-					cl, ok := vs.Values[i].(*ast.CompositeLit)
-					if !ok {
-						return nil, n.Pos()
-					}
-					var out []string
-					for _, e := range cl.Elts {
-						tv, ok := pk.TypesInfo.Types[e]
-						if !ok || tv.Value == nil || tv.Value.Kind() != constant.String {
-							return nil, n.Pos()
-						}
-						out = append(out, constant.StringVal(tv.Value))
-					}
-					return out, n.Pos()
-				}
-			}
-		}
-	}
-	return nil, token.NoPos
+	return p.stringTable(hs, "directives")
 }
 
 func (p *Program) DirectiveMap() *DirMap {
